@@ -228,6 +228,7 @@ package rfc8628
 //@   requires env != nil && poll != nil && auth != nil
 //@   modifies everything
 //@   invariant loop#1 [C01.dead-grant-stays-dead] old(dead(sig0) && rid_unique(sig0)) ==> dead(sig0) && rid_unique(sig0)
+//@   invariant loop#1 [C02.stored-grant-immutable] old(code_exists[sig0]) ==> code_exists[sig0] && code_rid[sig0] == old(code_rid[sig0]) && code_client[sig0] == old(code_client[sig0]) && code_req[sig0] == old(code_req[sig0])
 //@   invariant loop#1 [C01.used-code-stays-used] old(code_exists[sig0] && !code_active[sig0]) ==> code_exists[sig0] && !code_active[sig0]
 //@   invariant loop#1 [C04.dead-family-stays-dead] old(deadrid(rid0)) ==> deadrid(rid0)
 //@   invariant loop#1 [C08.revoked-grant-stays-revoked] old(deadrid(rid0)) ==> deadrid(rid0)
